@@ -161,7 +161,9 @@ def equation_case(draw):
                                                     lags=False, ops=('+', '-', '*'))))
     term_st = st.one_of(st.sampled_from(pool),
                         st.tuples(st.sampled_from(pool), st.sampled_from(['*', '/']), st.sampled_from(pool)).map(''.join),
-                        st.tuples(st.sampled_from(['2', '0.5', '3.']), st.just('*'), st.sampled_from(pool)).map(''.join))
+                        st.tuples(st.sampled_from(['2', '0.5', '3.', '1.e5', '2.E3', '1.e0', '4.e', '1.5e5', '0x1F', '1_000',
+                                                   '2.j']).filter(lambda t: t != '4.e'),
+                                  st.just('*'), st.sampled_from(pool)).map(''.join))
     terms = draw(st.lists(st.tuples(st.sampled_from(['+', '-', '']), term_st).map(''.join), min_size=1, max_size=5))
     shape = draw(st.integers(0, 3))
     if shape == 0:
